@@ -510,6 +510,11 @@ V("calculate: tensordot fast path for two single tensors that applies the invers
   "TensorDiagram.calculate", extra=[(BASE, PAIR_DEF_OLD, _pair_def("[order.index(axis) for axis in remaining]"))])
 V("twin: tensordot fast path for two single tensors with the right result permutation", "C05", BASE, PAIR_CALL_OLD, PAIR_CALL_NEW, "silent",
   extra=[(BASE, PAIR_DEF_OLD, _pair_def("[remaining.index(axis) for axis in order]"))])
+PAIR_CALL_GATED = PAIR_CALL_NEW.replace("all(node.free_indices == 0 for node in self._nodes):", "all(node.free_indices == 0 for node in self._nodes) and max(node.array.size for node in self._nodes) >= 4096:")
+V("calculate: the tensordot fast path with the inverse permutation, taken only for operands with many entries", "C05", BASE, PAIR_CALL_OLD, PAIR_CALL_GATED, "E14",
+  "TensorDiagram.calculate", extra=[(BASE, PAIR_DEF_OLD, _pair_def("[order.index(axis) for axis in remaining]"))])
+V("twin: the size-gated tensordot fast path with the right permutation", "C05", BASE, PAIR_CALL_OLD, PAIR_CALL_GATED, "silent",
+  extra=[(BASE, PAIR_DEF_OLD, _pair_def("[remaining.index(axis) for axis in order]"))])
 V("twin: add_edge removes the first unused index with del", "C05", BASE, "        i = free_source.pop(0)\n        j = free_target.pop(0)\n", "        i = free_source[0]\n        del free_source[0]\n        j = free_target[0]\n        del free_target[0]\n", "silent")
 V("twin: calculate labels a contracted pair with the larger subscript", "C05", BASE, "            indices[max(i, j)] = min(i, j)", "            indices[min(i, j)] = max(i, j)", "missed")
 V("D24 regression: join/meet put the caller's objects themselves into the diagram", "C02", POINT, "    args = tuple(o.copy() for o in args)\n", "", "E14.id", "_join_meet_duality")
@@ -703,3 +708,40 @@ V("pencil: the two middle coefficients exchanged", "C15", CURVE, "              
 V("pencil: a mixed determinant with a repeated row", "C15", CURVE, "                beta = det([a1, a2, b3]) + det([a1, b2, a3]) + det([b1, a2, a3])", "                beta = det([a1, a2, b3]) + det([a1, b2, a3]) + det([b1, a2, a2])", "E19.deg", "Conic.intersect")
 V("twin: the pencil parametrised from the other end", "C15", CURVE, "                sol = roots([alpha, beta, gamma, delta])\n\n                c = Conic(sol[0] * self.array + other.array, is_dual=self.is_dual, copy=False)",
   "                sol = roots([delta, gamma, beta, alpha])\n\n                c = Conic(self.array + sol[0] * other.array, is_dual=self.is_dual, copy=False)", "silent")
+
+
+# ------------------------------------------------------------------------------------------------ K7 across a helper that receives the dtype
+_EMBED_BODY_OLD = "    result = np.eye(n, dtype=dtype)\n\n    if matrix is not None:\n        result[:-1, :-1] = matrix\n\n    result[:-1, -1] = offset\n    return Transformation(result, copy=False)\n"
+_EMBED_BODY_NEW = "    return Transformation(_embed(matrix, offset, n, dtype), copy=False)\n"
+_EMBED_DEF = ("def _embed(matrix, offset, n, dtype):\n    result = np.eye(n, dtype=dtype)\n    if matrix is not None:\n        result[:-1, :-1] = matrix\n    result[:-1, -1] = offset\n"
+              "    return result\n\n\ndef rotation(angle: float")
+V("twin: the affine matrix assembled in a helper that receives the dtype", "C08", TRANS, _EMBED_BODY_OLD, _EMBED_BODY_NEW, "silent", extra=[(TRANS, "def rotation(angle: float", _EMBED_DEF)])
+V("the affine matrix assembled in a helper, the caller takes the dtype from the matrix only", "C08", TRANS, _EMBED_BODY_OLD, _EMBED_BODY_NEW, "E6.K7", "affine_transform",
+  extra=[(TRANS, "def rotation(angle: float", _EMBED_DEF), (TRANS, "        dtype = np.promote_types(dtype, matrix.dtype)", "        dtype = matrix.dtype")])
+
+
+# ------------------------------------------------------------------------------------------------ rotation about an axis as a literal matrix (E18.orth)
+_ROT3_OLD = ("    d = TensorDiagram(*[(Tensor(a, copy=False), e) for _ in range(dimension - 2)])\n    u = d.calculate().array\n    v = outer(a, a)\n"
+             "    result = np.cos(angle) * np.eye(dimension) + np.sin(angle) * u + (1 - np.cos(angle)) * v\n")
+
+
+def _quaternion(entry12: str) -> str:
+    return ("    w = np.cos(angle / 2)\n    x, y, z = np.sin(angle / 2) * a\n"
+            "    result = np.array(\n        [\n"
+            "            [1 - 2 * (y * y + z * z), 2 * (x * y + z * w), 2 * (x * z - y * w)],\n"
+            f"            [2 * (x * y - z * w), 1 - 2 * (x * x + z * z), {entry12}],\n"
+            "            [2 * (x * z + y * w), 2 * (y * z - x * w), 1 - 2 * (x * x + y * y)],\n"
+            "        ]\n    )\n")
+
+
+V("rotation about an axis as the unit-quaternion matrix with one wrong entry", "C08", TRANS, _ROT3_OLD, _quaternion("2 * (x * z + x * w)"), "E18.orth", "rotation")
+V("twin: rotation about an axis as the unit-quaternion matrix", "C08", TRANS, _ROT3_OLD, _quaternion("2 * (y * z + x * w)"), "silent")
+V("rotation about an axis: half angle in the cosine only", "C08", TRANS, _ROT3_OLD, _quaternion("2 * (y * z + x * w)").replace("np.sin(angle / 2)", "np.sin(angle)"), "E18.orth", "rotation")
+
+
+# ------------------------------------------------------------------------------------------------ the bounded operand carried in a local (E10.F7)
+F7_OLD = '        if self.dim == 2:\n            return list(distinct(self.edges.intersect(other)))\n\n        if isinstance(other, SegmentTensor):\n            try:\n                result = self._plane.meet(other._line)\n            except LinearDependenceError as e:\n                if isinstance(other, SegmentCollection):\n                    other = cast(SegmentTensor, other[~e.dependent_values])\n                result = cast(PlaneTensor, self._plane[~e.dependent_values]).meet(other._line)\n                return list(\n                    result[\n                        PolygonCollection.from_tensor(self[~e.dependent_values]).contains(result)\n                        & other.contains(result)\n                    ]\n                )\n            else:\n                return list(result[self.contains(result) & other.contains(result)])\n\n        try:\n            result = self._plane.meet(other)\n        except LinearDependenceError as e:\n            if other.free_indices > 0:\n                other = other[~e.dependent_values]\n            result = cast(PlaneTensor, self._plane[~e.dependent_values]).meet(other)\n            return list(result[PolygonCollection.from_tensor(self[~e.dependent_values]).contains(result)])\n        else:\n            return list(result[self.contains(result)])\n'
+F7_NEW = '        if self.dim == 2:\n            return list(distinct(self.edges.intersect(other)))\n\n        # A segment is intersected through its supporting line, so lines and segments share one code path;\n        # the points that are found are tested against the segment at the end.\n        segment = other if isinstance(other, SegmentTensor) else None\n        line = other if segment is None else segment._line\n\n        polygons: PolygonTensor = self\n\n        try:\n            result = self._plane.meet(line)\n        except LinearDependenceError as e:\n            # The planes that contain the line have no single point in common with it: drop these polygons\n            # and intersect the remaining ones. With one line (segment) per polygon, the partners of the\n            # dropped polygons have to go as well to keep the shapes aligned.\n            keep = ~e.dependent_values\n            polygons = PolygonCollection.from_tensor(self[keep])\n            if line.free_indices > 0:\n                line = cast(LineTensor, line[keep])\n            segment = cast(SegmentTensor, segment[keep]) if isinstance(segment, SegmentCollection) else None\n            result = cast(PlaneTensor, self._plane[keep]).meet(line)\n\n        ind = polygons.contains(result)\n        if segment is not None:\n            ind = ind & segment.contains(result)\n\n        return list(result[ind])\n'
+F7_TWIN = '        if self.dim == 2:\n            return list(distinct(self.edges.intersect(other)))\n\n        # A segment is intersected through its supporting line, so lines and segments share one code path;\n        # the points that are found are tested against the segment at the end.\n        segment = other if isinstance(other, SegmentTensor) else None\n        line = other if segment is None else segment._line\n\n        polygons: PolygonTensor = self\n\n        try:\n            result = self._plane.meet(line)\n        except LinearDependenceError as e:\n            # The planes that contain the line have no single point in common with it: drop these polygons\n            # and intersect the remaining ones. With one line (segment) per polygon, the partners of the\n            # dropped polygons have to go as well to keep the shapes aligned.\n            keep = ~e.dependent_values\n            polygons = PolygonCollection.from_tensor(self[keep])\n            if line.free_indices > 0:\n                line = cast(LineTensor, line[keep])\n            segment = cast(SegmentTensor, segment[keep]) if isinstance(segment, SegmentCollection) else segment\n            result = cast(PlaneTensor, self._plane[keep]).meet(line)\n\n        ind = polygons.contains(result)\n        if segment is not None:\n            ind = ind & segment.contains(result)\n\n        return list(result[ind])\n'
+V("intersect restructured around one try statement: the single segment is dropped in the handler", "C18", SHAPES, F7_OLD, F7_NEW, "E10.F7", "PolygonTensor.intersect", quick=True)
+V("twin: the same restructuring keeping the single segment", "C18", SHAPES, F7_OLD, F7_TWIN, "silent")
